@@ -597,6 +597,7 @@ pub fn orchestrate<P: Property>(tier: Tier) -> i32 {
         // 2. minimise (in another fresh process), 3. replay the minimised file
         let min_path = replay_dir.join(format!("{}-{}-run{}.json", P::ID, short, cand.i));
         let mut final_path = raw_path.clone();
+        let mut min_detail: Option<String> = None;
         if !class.ends_with(".hang") && !class.ends_with(".crash") {
             let st = Command::new(self_exe())
                 .arg("shrink")
@@ -607,8 +608,9 @@ pub fn orchestrate<P: Property>(tier: Tier) -> i32 {
                 .status();
             if matches!(st, Ok(s) if s.success()) && min_path.exists() {
                 match fresh_replay(&min_path, tmo) {
-                    Ok(Some((c, _))) if c == class => {
+                    Ok(Some((c, d))) if c == class => {
                         final_path = min_path.clone();
+                        min_detail = Some(d);
                         let _ = fs::remove_file(&raw_path);
                     }
                     _ => {
@@ -626,7 +628,10 @@ pub fn orchestrate<P: Property>(tier: Tier) -> i32 {
             violations += 1;
             exit = 1;
             println!("violation class={} runs_affected={} first_run={} seed={}", class, n, cand.i, cand.seed);
-            println!("  {}", cand.detail.chars().take(1500).collect::<String>());
+            println!("  first seen as: {}", cand.detail.chars().take(1200).collect::<String>());
+            if let Some(d) = &min_detail {
+                println!("  minimised to:  {}", d.chars().take(1200).collect::<String>());
+            }
             println!("VIOLATION property={} replay={}", P::ID, final_path.display());
             reported.push(json!({"class": class, "known_finding": false, "runs_affected": n, "replay": final_path}));
         }
